@@ -87,7 +87,7 @@ def first_value_diff(want, got):
             if a[1:3] != b[1:3]:
                 return "const-array-header"
             return walk([e for _, e in a[3]], [e for _, e in b[3]]) or "const-array"
-        if a[0] == "obj":
+        if a[0] in archgen.OBJ:
             return walk(a[3], b[3]) or "object"
         if a[0] == "s" and a[1] == b"" :
             return "empty-string-value:%s" % b[1].hex()
@@ -113,8 +113,14 @@ def fixed_cases(reg):
     t2 = [("obj", 1, b"VNode", [("op", 1), ("sp", 1), ("obj", 2, b"VNodf", [("op", 1), ("op", 3)]), ("sp", 3)]),
           ("pos", 3), ("op", 0), ("sp", 0), ("s", b""), ("s", b"\x00"), ("r", b""), ("p", "bool", 1)]
     t3 = []
+    # the three ways to read an object record back; constant strings that the loading dictionary has never seen,
+    # one it has (a predefined string), the same text twice
+    t4 = [("sp", 2), ("objp", 1, b"VNode", [("op", 1), ("objt", 2, b"VNodf", [("op", 1), ("sp", 3)]), ("p", "u32", 7)]),
+          ("objp", 3, L, [("p", "u8", 0)]), ("objt", 4, L, [("p", "u8", 0)]), ("op", 4), ("sp", 3),
+          ("v", 100001, ("k", b"c10 never seen before")), ("v", 100002, ("k", b"self")),
+          ("v", 100003, ("ca", 100004, 0, [(100005, ("k", b"c10 never seen before")), (100006, ("k", b"x"))]))]
     cases = []
-    for i, t in enumerate([t1, t2, t3]):
+    for i, t in enumerate([t1, t2, t3, t4]):
         cases.append(("fixed:%d" % i, [reg, archgen.arc_line((1, b"TEST", b"Morfuse test archive"), t)]))
     return cases
 
@@ -149,7 +155,7 @@ def check(ctx):
         nwf += archgen.well_formed(items)
         maxobj = max(maxobj, len(archgen.registered(items)))
         count_kinds(items, hist)
-        batch.append(("random:%d" % i, [reg, archgen.arc_line(info, items)]))
+        batch.append(("random:%d" % i, [reg, archgen.arc_line(info, items)] + (["rsame"] if i % 4 == 0 else [])))
         if len(batch) == 100:
             bad += d.run_batch(batch)
             batch = []
@@ -195,7 +201,7 @@ def count_kinds(items, hist):
         if it[0] in ("op", "sp") and it[1] == 0:
             k += ":null"
         hist[k] = hist.get(k, 0) + 1
-        if it[0] == "obj":
+        if it[0] in archgen.OBJ:
             hist["cls:" + it[2].decode()] = hist.get("cls:" + it[2].decode(), 0) + 1
             count_kinds(it[3], hist)
 
